@@ -150,6 +150,26 @@ TEXT_ADD4 = {
  "C11": " The identity string places its separator by position (a leading empty line is not dropped).",
  "C14": " A guard on the cut index does not exclude index 0 (every cue starts at or after d).",
 }
+TECH_ADD5 = {
+ "C01": "readers store nothing into package-level memory",
+ "C02": "readers store nothing into package-level memory; reader arms collected from helpers",
+ "C03": "readers store nothing into package-level memory",
+ "C04": "readers store nothing into package-level memory; updateFormat as a table of (name, present) rows",
+ "C05": "readers store nothing into package-level memory (a decoder with a pending accent cached across reads)",
+ "C06": "readers store nothing into package-level memory (the shared G0 table patched through a pointer)",
+ "C07": "CLI guard helpers that receive a flag by address; binary-search key",
+ "C08": "facts about fields held in private local variables survive calls; L7 flag-or-shrink loops",
+ "C09": "full-scan over the loops of visitor helpers; callbacks accounted inside the helpers that call them",
+ "C11": "a table of identity strings kept parallel to the list (filled after ordering, deleted from in lockstep)",
+ "C12": "Order() after the append on every path to a return",
+ "C15": "twin update through a callback the call graph resolves",
+}
+TEXT_ADD5 = {
+ "C05": " Readers keep no state between documents (a character handler with its pending accent is not shared by reads).",
+ "C06": " The shared G0 tables are never written by a read.",
+ "C07": " The CLI refuses for -s only the value 0, also when the test sits in a helper that receives the flag by address.",
+ "C12": " Merge orders the receiver after appending on every path, not only when the argument starts before the receiver ends.",
+}
 for k, v in TECH_ADD.items():
     TECH[k] += "; " + v
 for k, v in TEXT_ADD.items():
@@ -165,6 +185,10 @@ for k, v in TEXT_ADD3.items():
 for k, v in TECH_ADD4.items():
     TECH[k] += "; " + v
 for k, v in TEXT_ADD4.items():
+    TEXT[k] += v
+for k, v in TECH_ADD5.items():
+    TECH[k] += "; " + v
+for k, v in TEXT_ADD5.items():
     TEXT[k] += v
 NOTE = "Assumes P0 (non-nil receivers/arguments), P1 (non-nil model elements, map keys = IDs), library contracts in internal/chk/contracts.go, and the fidelity of go/ssa + VTA (x/tools v0.29.0). Audited residue entries in rules/residue.txt are trusted."
 props = [json.loads(l) for l in open("/verif/properties.jsonl")]
